@@ -451,6 +451,117 @@ fn run_family_isolated(seed: u64, fam_idx: usize, variant: u64, rep: &mut Report
     }
 }
 
+/// A package whose `_Validation` table was uncatalogued through the API (its rows in `_Tables` / `_Columns`
+/// deleted) and which was then saved and reopened: the table object is gone, its stream is still there.
+/// Calls that fail in this state must change nothing either.
+fn uncatalogued_validation(rep: &mut Report, only: Option<&str>) {
+    use crate::medium::Medium;
+    use crate::observe::observe;
+    type Pkg = msi::Package<crate::medium::Handle>;
+    fn std_cols(first: &str, n: usize) -> Vec<msi::Column> {
+        let mut v = vec![
+            msi::Column::build(first).primary_key().id_string(32),
+            msi::Column::build("Column").primary_key().id_string(32),
+            msi::Column::build("Nullable").enum_values(&["Y", "N"]).string(4),
+            msi::Column::build("MinValue").nullable().int32(),
+            msi::Column::build("MaxValue").nullable().int32(),
+            msi::Column::build("KeyTable").nullable().id_string(255),
+            msi::Column::build("KeyColumn").nullable().range(1, 32).int16(),
+            msi::Column::build("Category").nullable().string(32),
+            msi::Column::build("Set").nullable().text_string(255),
+            msi::Column::build("Description").nullable().text_string(255),
+            msi::Column::build("Extra").nullable().int16(),
+        ];
+        v.truncate(n);
+        v
+    }
+    type Call = fn(&mut Pkg) -> std::io::Result<()>;
+    // (name, optional first call that must succeed for the scenario to apply, call under test)
+    let scenarios: [(&str, Option<Call>, Call); 8] = [
+        ("drop-user-table", None, |p| p.drop_table("T")),
+        ("create-user-table", None, |p| p.create_table("N", vec![msi::Column::build("K").primary_key().int16(), msi::Column::build("E").nullable().enum_values(&["a", "b"]).string(4)])),
+        ("create-_Validation-3-columns", None, |p| p.create_table("_Validation", std_cols("Table", 3))),
+        ("create-_Validation-9-columns", None, |p| p.create_table("_Validation", std_cols("Table", 9))),
+        ("create-_Validation-11-columns", None, |p| p.create_table("_Validation", std_cols("Table", 11))),
+        ("create-_Validation-standard", None, |p| p.create_table("_Validation", std_cols("Table", 10))),
+        ("drop-after-odd-_Validation", Some(|p| p.create_table("_Validation", std_cols("Tbl", 10))), |p| p.drop_table("T")),
+        ("create-after-odd-_Validation", Some(|p| p.create_table("_Validation", std_cols("Tbl", 10))), |p| p.create_table("N", vec![msi::Column::build("K").primary_key().int16()])),
+    ];
+    for (name, first, call) in scenarios {
+        if only.map(|o| o != name).unwrap_or(false) {
+            continue;
+        }
+        let med = Medium::new();
+        let prepared = guarded(|| -> Result<Pkg, String> {
+            let mut p = msi::Package::create(msi::PackageType::Installer, med.handle()).map_err(|e| e.to_string())?;
+            p.create_table("T", vec![msi::Column::build("K").primary_key().int16(), msi::Column::build("V").nullable().string(0)]).map_err(|e| e.to_string())?;
+            p.insert_rows(msi::Insert::into("T").row(vec![msi::Value::Int(1), msi::Value::from("t0x1 one")]).row(vec![msi::Value::Int(2), msi::Value::from("t0x2 two")])).map_err(|e| e.to_string())?;
+            p.delete_rows(msi::Delete::from("_Tables").with(msi::Expr::col("Name").eq(msi::Expr::string("_Validation")))).map_err(|e| e.to_string())?;
+            p.delete_rows(msi::Delete::from("_Columns").with(msi::Expr::col("Table").eq(msi::Expr::string("_Validation")))).map_err(|e| e.to_string())?;
+            p.into_inner().map_err(|e| e.to_string())?;
+            let mut p = msi::Package::open(med.handle()).map_err(|e| e.to_string())?;
+            if let Some(f) = first {
+                f(&mut p).map_err(|e| format!("first call refused: {}", e))?;
+                p.flush().map_err(|e| e.to_string())?;
+            }
+            Ok(p)
+        });
+        rep.count("uncatalogued_validation_scenarios");
+        let w = json!({"kind": "uncatalogued-validation", "name": name});
+        let mut pkg = match prepared {
+            Ok(Ok(p)) => p,
+            Ok(Err(_)) => {
+                rep.count("uncatalogued_validation_state_not_reached");
+                rep.case(None);
+                continue;
+            }
+            Err(p) => {
+                rep.violation(format!("C04/panic/{}", p.signature()), format!("preparing the uncatalogued-_Validation state panicked: {}", p.message), w);
+                continue;
+            }
+        };
+        rep.case(Some(fnv(format!("uncat:{}", name).as_bytes())));
+        let before = match guarded(|| observe(&mut pkg)) {
+            Ok(Ok((o, _))) => o,
+            _ => {
+                std::mem::forget(pkg);
+                continue;
+            }
+        };
+        match guarded(|| call(&mut pkg)) {
+            Err(p) => {
+                std::mem::forget(pkg);
+                rep.violation(format!("C04/panic/{}", p.signature()), format!("[{}] panicked: {}", name, p.message), w);
+            }
+            Ok(Ok(())) => rep.count("uncatalogued_validation_call_accepted"),
+            Ok(Err(e)) => {
+                rep.count("uncatalogued_validation_call_refused");
+                let after = guarded(|| observe(&mut pkg));
+                let live = match after {
+                    Ok(Ok((o, _))) => before.diff(&o),
+                    Ok(Err(e2)) => Some(format!("the package can no longer be read: {}", e2)),
+                    Err(p) => Some(format!("reading the package panics: {}", p.message)),
+                };
+                if let Some(d) = live {
+                    rep.violation(format!("C04/uncatalogued-validation/{}/changed", name), format!("[{}] returned an error ({}) but changed the package: {}", name, e, d), w);
+                    std::mem::forget(pkg);
+                    continue;
+                }
+                let saved = guarded(|| pkg.flush()).ok().and_then(|r| r.ok()).map(|_| reopen_observe(&med.live()));
+                match saved {
+                    Some(Ok(o)) => {
+                        if let Some(d) = before.diff(&o) {
+                            rep.violation(format!("C04/uncatalogued-validation/{}/changed-after-reopen", name), format!("[{}] returned an error ({}); after save and reopen: {}", name, e, d), w);
+                        }
+                    }
+                    Some(Err(e2)) => rep.violation(format!("C04/uncatalogued-validation/{}/reopen-fails", name), format!("[{}] returned an error ({}); the saved package no longer opens: {}", name, e, e2), w),
+                    None => {}
+                }
+            }
+        }
+    }
+}
+
 pub fn run(ctx: &Ctx) -> Report {
     if let Some(w) = &ctx.replay {
         let mut rep = Report::new();
@@ -459,6 +570,7 @@ pub fn run(ctx: &Ctx) -> Report {
                 let which = crate::props::c20::which_of(w["limit"].as_str(), w["mode"].as_str());
                 crate::props::c20::capacity_for("C04", which, &mut rep);
             }
+            Some("uncatalogued-validation") => uncatalogued_validation(&mut rep, w["name"].as_str()),
             Some("state") => run_case(w["seed"].as_u64().unwrap_or(ctx.seed), w["case"].as_u64().unwrap_or(0), &mut rep),
             Some("isolated") => run_family_isolated(
                 w["seed"].as_u64().unwrap_or(ctx.seed),
@@ -480,6 +592,9 @@ pub fn run(ctx: &Ctx) -> Report {
             if (n >= 4 && shard == i) || (n < 4 && shard == 0) {
                 crate::props::c20::capacity_for("C04", which, &mut rep);
             }
+        }
+        if shard == 4 % n {
+            uncatalogued_validation(&mut rep, None);
         }
         let mut k = 0usize;
         for fam_idx in 0..90usize {
